@@ -193,6 +193,35 @@ def run(ctx):
             e3, _, _ = run_case(api, classes, t, [[o["name"], 1 if o["size"] == 1 else 2 ** o["size"] - 1]], base=lm2)
             events.append(e3)
             ctx.count_case((name, "short-record", o["name"]), nontrivial=True)
+    # a MetaModule whose exposed user-defined controllers carry labels made of characters a slug drops (every attribute
+    # assignment recomputes the label aliases), and assignments made while the process is in lenient mode
+    from rv.errors import override_raise_controller_value_errors
+    for lab in ("♪♪", "!!!", "😀", "\U0001d11e", " ", "9 lives"):
+        for o in spec["MetaModule"]["opts"]:
+            if o["exclusive_of"] or any(o["name"] in p_["exclusive_of"] for p_ in spec["MetaModule"]["opts"]) or o["name"] == "user_defined_controllers":
+                continue
+            mm = api.m.MetaModule()
+            mm.project.new_module(api.m.Amplifier)
+            mm.mappings.values[0].module, mm.mappings.values[0].controller = 1, 0
+            mm.user_defined_controllers = 1
+            mm.update_user_defined_controllers()
+            mm.user_defined[0].label = lab
+            try:
+                e4, _, _ = run_case(api, classes, "MetaModule", [[o["name"], 1 if o["size"] == 1 else 3]], base=mm)
+                events.append(e4)
+            except Exception as ex:
+                events.append({"op": "opts", "t": "MetaModule", "ops": [[o["name"], 1]], "init": [], "logical": [], "files": [],
+                               "raised": type(ex).__name__})
+            ctx.count_case(("label", lab, o["name"]), nontrivial=True)
+    for t in sorted(spec):
+        for o in spec[t]["opts"]:
+            if not o["hasmm"]:
+                continue
+            for v in (-1, 0, o["max"], o["max"] + 1, 200, 255):
+                with override_raise_controller_value_errors(False):
+                    e5, _, _ = run_case(api, classes, t, [[o["name"], v]])
+                events.append(e5)
+                ctx.count_case((t, "lenient", o["name"], v), nontrivial=True)
     # both options of a mutually exclusive pair given as constructor keywords (applied in the class's own order)
     for t in sorted(spec):
         order = list(classes[t].options)        # the order in which the constructor applies its keywords
